@@ -74,7 +74,7 @@ func (f *File) DecodeGlobalHeap(addr uint64) (*GCOL, error) {
 		ob.Index = oc.u16("id")
 		ob.RefCount = oc.u16("count")
 		oc.skip(4, "reserved")
-		ob.Size = oc.length("size")
+		ob.Size = oc.length("object-size")
 		if ob.Index == 0 {
 			// free-space object: size includes the object header and must reach the end
 			sawFree = true
